@@ -215,7 +215,8 @@ def main(tier, seed, replay=None):
         json.dump(spec, open(sp, "w"))
         outp = os.path.join(base, "out" if mode.endswith("-mod") else "out.rs")
         t0 = time.time()
-        rc, txt = vlib.oas(["generate", mode, "-i", sp, "-o", outp, "-q"], timeout=TIMEOUT)
+        extra = ["--all-schemas"] if (ci + MODES.index(mode)) % 2 == 0 or tags != ["unmutated"] else []
+        rc, txt = vlib.oas(["generate", mode, "-i", sp, "-o", outp, "-q"] + extra, timeout=TIMEOUT)
         dt = time.time() - t0
         rc2, txt2 = vlib.oas(["list", "operations", "-i", sp, "--color", "never"], timeout=TIMEOUT)
         return rc, txt[-600:], dt, snapshot(outp), rc2, txt2[-300:]
